@@ -20,6 +20,8 @@ if [ -f "scripts/pre-$ID.sh" ]; then . "scripts/pre-$ID.sh" >"build/pre-$ID.log"
 if ! build vcheck verif >"$LOG" 2>&1; then
   echo "BUILD-FAILED property=$ID (see $LOG)"; cat "$LOG"; exit 3
 fi
+# race-detector variant (plain sources): re-entrancy pass of every check, free-running pass of C13
+build vcheck-race verif -race >"build/build-race-$ID.log" 2>&1 || echo "note: race variant does not build (re-entrancy pass skipped)"
 if [ -n "${VARIANT_FAILED:-}" ]; then
   cp "build/pre-$ID.log" "replays/${ID}_variant-build.log" 2>/dev/null
   echo "VIOLATION property=$ID replay=$(pwd)/replays/${ID}_variant-build.log"
